@@ -8,6 +8,11 @@ def m(name, rule, key, file, old, new):
     return dict(name=name, kind='mutant', rule=rule, key=key, edits=[dict(file=file, old=old, new=new)])
 
 CASES = [
+    m('revert-fix-bytes-constant', 'R1c', "visit_Constant(b'b')", 'pedal/types/normalize.py',
+      "    if isinstance(value, (bytes, type(Ellipsis))):\n        # No Pedal type models these literals; they are unknown values, not instances of a class to look up by name\n        return AnyType()\n", ""),
+    dict(name='twin-bytes-constant-typed-early', kind='twin', edits=[dict(file='pedal/types/normalize.py',
+         old="    if isinstance(value, complex):\n        return NumType()\n",
+         new="    if isinstance(value, complex):\n        return NumType()\n    if isinstance(value, bytes) or value is Ellipsis:\n        return AnyType()\n")]),
     m('narrow-traverse-handler', 'R1', 'never-raises', TV,
       "            self.process_ast(ast_tree)\n        except Exception as error:", "            self.process_ast(ast_tree)\n        except (TypeError, ValueError) as error:"),
     m('parse-handler-only-syntax', 'R1', 'never-raises', TV,
